@@ -8,22 +8,37 @@ package kfmt
 // values, calls the REAL Fprintf on a pre-sized recording writer, recovers
 // panics, measures heap allocations with testing.AllocsPerRun and logs one
 // JSON event per case:
-//   {"k":"fmt","f":[bytes],"a":[{ty,neg,mag,s,bv}...],"out":[[byte,count]...],"panic":bool,"allocs":n}
+//   {"k":"fmt","f":[bytes],"a":[{ty,neg,mag,s,bv}...],"out":[[byte,count]...],"panic":bool,"hang":bool,"allocs":n}
 // Output and string contents are logged run-length encoded (a lossless
 // re-encoding; a 10^6-byte padding is one pair).  Integers are logged as
 // sign + magnitude in four 16-bit limbs (TLC's JSON reader truncates >= 2^31).
 // The events are judged by the TLA+ monitor specs/kfmt/KfmtTrace.tla.
 //
 //   TestVerifC15Cases   replays the cases TLC emitted from KfmtModel (leg G)
-//   TestVerifC15Random  seeded random cases at real scale (leg T)
+//   TestVerifC15Random  seeded random cases at real scale (leg T), followed by the
+//                       "local argument" shapes: call sites whose arguments live in the
+//                       caller's own stack frame (escape analysis of Fprintf/doWrite decides
+//                       whether such a call allocates)
+//
+// A formatter that does not return is a verdict, not a machinery failure: the
+// cases run in a child process (this binary re-executed with C15_CHILD=1); a
+// watchdog goroutine decides by CPU time, logs the running case with
+// "hang":true and exits; the parent restarts the child behind that case.
 
 import (
 	"bufio"
 	"encoding/json"
+	"io"
 	"math/rand"
 	"os"
+	"os/exec"
+	"path/filepath"
 	"strconv"
+	"sync"
+	"sync/atomic"
+	"syscall"
 	"testing"
+	"time"
 )
 
 // ---- recording writer (never allocates below its pre-sized capacity)
@@ -65,8 +80,10 @@ type c15Arg struct {
 }
 
 type c15Case struct {
-	F []int    `json:"f"`
-	A []c15Arg `json:"a"`
+	F     []int    `json:"f"`
+	A     []c15Arg `json:"a"`
+	Shape string   `json:"shape"` // replay files: a local-argument call site and its seed
+	Seed  int      `json:"seed"`
 }
 
 type c15Other struct{ x int }
@@ -214,55 +231,181 @@ func c15Call(format string, args []interface{}) (panicked bool) {
 }
 
 type c15Event struct {
-	K      string     `json:"k"`
-	F      []int      `json:"f"`
-	A      []c15Arg   `json:"a"`
-	Out    [][2]int   `json:"out"`
-	Panic  bool       `json:"panic"`
-	Allocs int        `json:"allocs"`
+	K      string   `json:"k"`
+	Shape  string   `json:"shape,omitempty"`
+	Seed   int      `json:"seed,omitempty"`
+	F      []int    `json:"f"`
+	A      []c15Arg `json:"a"`
+	Out    [][2]int `json:"out"`
+	Panic  bool     `json:"panic"`
+	Hang   bool     `json:"hang"`
+	Allocs int      `json:"allocs"`
 }
 
-func c15Run(t *testing.T, enc *json.Encoder, kind string, fbytes []byte, args []interface{}) {
-	format := string(fbytes)
-	ev := c15Event{K: kind, F: make([]int, len(fbytes)), A: make([]c15Arg, len(args))}
-	for i, b := range fbytes {
-		ev.F[i] = int(b)
-	}
-	for i, v := range args {
-		ev.A[i] = c15Describe(v)
-	}
-	ev.Panic = c15Call(format, args)
-	ev.Out = make([][2]int, c15W.n)
-	copy(ev.Out, c15W.runs[:c15W.n])
-	if c15W.overflow {
-		t.Fatalf("recording writer too small for %q", format)
-	}
-	if !ev.Panic {
-		ev.Allocs = int(testing.AllocsPerRun(3, func() { c15Call(format, args) }))
-	}
-	if err := enc.Encode(&ev); err != nil {
-		t.Fatal(err)
-	}
+// ---- worker (child process) with a CPU-time watchdog
+
+type c15Worker struct {
+	t    *testing.T
+	mu   sync.Mutex
+	f    *os.File
+	bw   *bufio.Writer
+	enc  *json.Encoder
+	skip int    // cases already decided by an earlier child
+	idx  int    // index of the next case
+	cur  int64  // atomic: index of the case being executed
+	hang []byte // the event to log if the current case never returns
 }
 
-func c15Out(t *testing.T) (*bufio.Writer, *json.Encoder, func()) {
-	f, err := os.Create(os.Getenv("TRACE_OUT"))
+const c15CPULimit = 3 * time.Second // the slowest legitimate case (10^6-byte padding, 5 calls) needs about 30 ms
+
+var c15Ru syscall.Rusage
+
+func c15CPU() time.Duration {
+	syscall.Getrusage(syscall.RUSAGE_SELF, &c15Ru)
+	return time.Duration(c15Ru.Utime.Nano() + c15Ru.Stime.Nano())
+}
+
+func c15NewWorker(t *testing.T) *c15Worker {
+	f, err := os.Create(os.Getenv("C15_CHILD_OUT"))
 	if err != nil {
 		t.Fatal(err)
 	}
-	bw := bufio.NewWriterSize(f, 1<<20)
-	return bw, json.NewEncoder(bw), func() { bw.Flush(); f.Close() }
+	w := &c15Worker{t: t, f: f, bw: bufio.NewWriterSize(f, 1<<20), cur: -1}
+	w.enc = json.NewEncoder(w.bw)
+	w.skip, _ = strconv.Atoi(os.Getenv("C15_SKIP"))
+	go func() { // the watchdog allocates nothing while a case is being measured
+		last, start := int64(-2), time.Duration(0)
+		for {
+			time.Sleep(100 * time.Millisecond)
+			cur, cpu := atomic.LoadInt64(&w.cur), c15CPU()
+			if cur != last {
+				last, start = cur, cpu
+				continue
+			}
+			if cur >= 0 && cpu-start > c15CPULimit {
+				w.mu.Lock()
+				w.bw.Flush()
+				w.f.Write(w.hang)
+				w.f.Close()
+				os.Exit(7) // the spinning goroutine cannot be stopped
+			}
+		}
+	}()
+	return w
+}
+
+func (w *c15Worker) done() {
+	w.mu.Lock()
+	atomic.StoreInt64(&w.cur, -1)
+	w.bw.Flush()
+	w.f.Close()
+	w.mu.Unlock()
+}
+
+// run executes one case: call is the measured call site, (fbytes, args) describe it.
+func (w *c15Worker) run(kind, shape string, seed int, fbytes []byte, args []interface{}, call func() bool) {
+	i := w.idx
+	w.idx++
+	if i < w.skip {
+		return
+	}
+	ev := c15Event{K: kind, Shape: shape, Seed: seed, F: make([]int, len(fbytes)), A: make([]c15Arg, len(args)), Out: [][2]int{}}
+	for j, b := range fbytes {
+		ev.F[j] = int(b)
+	}
+	for j, v := range args {
+		ev.A[j] = c15Describe(v)
+	}
+	ev.Hang = true
+	line, _ := json.Marshal(&ev)
+	ev.Hang = false
+	w.mu.Lock()
+	w.hang = append(line, '\n')
+	atomic.StoreInt64(&w.cur, int64(i))
+	w.mu.Unlock()
+
+	ev.Panic = call()
+	ev.Out = make([][2]int, c15W.n)
+	copy(ev.Out, c15W.runs[:c15W.n])
+	if c15W.overflow {
+		w.t.Fatalf("recording writer too small for %q", fbytes)
+	}
+	if !ev.Panic {
+		ev.Allocs = int(testing.AllocsPerRun(3, func() { call() }))
+	}
+	w.mu.Lock()
+	atomic.StoreInt64(&w.cur, -1)
+	if err := w.enc.Encode(&ev); err != nil {
+		w.t.Fatal(err)
+	}
+	w.mu.Unlock()
+}
+
+func (w *c15Worker) runCase(kind string, fbytes []byte, args []interface{}) {
+	format := string(fbytes)
+	w.run(kind, "", 0, fbytes, args, func() bool { return c15Call(format, args) })
+}
+
+// c15Parent runs the named test as worker processes until every case has an event; a child that
+// exits with status 7 has logged a hang and is restarted behind that case.
+func c15Parent(t *testing.T, name string) {
+	out, err := os.Create(os.Getenv("TRACE_OUT"))
+	if err != nil {
+		t.Fatal(err)
+	}
+	defer out.Close()
+	work := os.Getenv("VERIF_WORK")
+	if work == "" {
+		work = os.TempDir()
+	}
+	tmp := filepath.Join(work, "c15_child."+name+".ndjson")
+	defer os.Remove(tmp)
+	skip, hangs := 0, 0
+	for {
+		os.Remove(tmp)
+		cmd := exec.Command(os.Args[0], "-test.run=^"+name+"$", "-test.timeout=3000s")
+		cmd.Env = append(os.Environ(), "C15_CHILD=1", "C15_SKIP="+strconv.Itoa(skip), "C15_CHILD_OUT="+tmp)
+		msg, runErr := cmd.CombinedOutput()
+		got := 0
+		if cf, err := os.Open(tmp); err == nil {
+			sc := bufio.NewScanner(cf)
+			sc.Buffer(make([]byte, 1<<20), 1<<26)
+			for sc.Scan() {
+				out.Write(sc.Bytes())
+				out.Write([]byte{'\n'})
+				got++
+			}
+			cf.Close()
+		}
+		skip += got
+		if runErr == nil {
+			break
+		}
+		if ee, ok := runErr.(*exec.ExitError); ok && ee.ExitCode() == 7 && got > 0 {
+			if hangs++; hangs >= 5 {
+				t.Logf("stopped after %d cases that did not return", hangs)
+				break
+			}
+			continue
+		}
+		t.Fatalf("worker failed: %v\n%s", runErr, msg)
+	}
+	t.Logf("%d events, %d hang(s)", skip, hangs)
 }
 
 // TestVerifC15Cases replays the cases in $CASES (one JSON object per line).
 func TestVerifC15Cases(t *testing.T) {
+	if os.Getenv("C15_CHILD") == "" {
+		c15Parent(t, "TestVerifC15Cases")
+		return
+	}
 	in, err := os.Open(os.Getenv("CASES"))
 	if err != nil {
 		t.Fatal(err)
 	}
 	defer in.Close()
-	_, enc, done := c15Out(t)
-	defer done()
+	w := c15NewWorker(t)
+	defer w.done()
 	sc := bufio.NewScanner(in)
 	sc.Buffer(make([]byte, 1<<20), 1<<26)
 	n := 0
@@ -270,9 +413,22 @@ func TestVerifC15Cases(t *testing.T) {
 		if len(sc.Bytes()) == 0 {
 			continue
 		}
+		if w.idx < w.skip { // decided by an earlier worker
+			w.idx++
+			continue
+		}
 		var c c15Case
 		if err := json.Unmarshal(sc.Bytes(), &c); err != nil {
 			t.Fatalf("case %d: %v", n, err)
+		}
+		if c.Shape != "" {
+			for _, sh := range c15Shapes {
+				if sh.name == c.Shape {
+					w.runShape(sh, byte(c.Seed))
+				}
+			}
+			n++
+			continue
 		}
 		fb := make([]byte, len(c.F))
 		for i, v := range c.F {
@@ -282,10 +438,9 @@ func TestVerifC15Cases(t *testing.T) {
 		for i, a := range c.A {
 			args[i] = c15Value(a)
 		}
-		c15Run(t, enc, "fmt", fb, args)
+		w.runCase("fmt", fb, args)
 		n++
 	}
-	t.Logf("replayed %d cases", n)
 }
 
 // ---- random cases at real scale
@@ -330,7 +485,7 @@ func c15RandInt(rng *rand.Rand) interface{} {
 	}
 	a := c15Arg{Ty: ty}
 	if signed {
-		v := int64(raw << (64 - bits)) >> (64 - bits) // sign-extend the low bits
+		v := int64(raw<<(64-bits)) >> (64 - bits) // sign-extend the low bits
 		a = c15Signed(ty, v)
 	} else {
 		if bits < 64 {
@@ -498,22 +653,164 @@ func c15Arbitrary(rng *rand.Rand) ([]byte, []interface{}) {
 }
 
 func TestVerifC15Random(t *testing.T) {
+	if os.Getenv("C15_CHILD") == "" {
+		c15Parent(t, "TestVerifC15Random")
+		return
+	}
 	seed, _ := strconv.ParseInt(os.Getenv("VERIF_SEED"), 10, 64)
 	n, _ := strconv.Atoi(os.Getenv("NCASES"))
 	if n == 0 {
 		n = 1000
 	}
 	rng := rand.New(rand.NewSource(seed*7919 + 15))
-	_, enc, done := c15Out(t)
-	defer done()
+	w := c15NewWorker(t)
+	defer w.done()
 	big := 2 + n/1500 // how many 10^5..10^6-wide %s paddings the whole run may contain
 	for i := 0; i < n; i++ {
 		if rng.Intn(10) < 3 {
 			f, a := c15Arbitrary(rng)
-			c15Run(t, enc, "any", f, a)
+			w.runCase("any", f, a)
 		} else {
 			f, a := c15Structured(rng, &big)
-			c15Run(t, enc, "fmt", f, a)
+			w.runCase("fmt", f, a)
 		}
 	}
+	for _, sh := range c15Shapes {
+		for k := 0; k < 3; k++ {
+			w.runShape(sh, byte(rng.Intn(200)))
+		}
+	}
+}
+
+func (w *c15Worker) runShape(sh c15Shape, sd byte) {
+	f, a := sh.desc(sd)
+	w.run("fmt", sh.name, int(sd), []byte(f), a, func() (panicked bool) {
+		defer func() {
+			if r := recover(); r != nil {
+				panicked = true
+			}
+		}()
+		c15W.reset()
+		sh.call(c15W, sd)
+		return false
+	})
+}
+
+// ---- call sites whose arguments live in the caller's stack frame.  Every call function is a
+// dedicated non-inlined function; desc rebuilds the same format and (heap) values for the log.
+
+func c15Fill(b []byte, seed byte) {
+	for i := range b {
+		b[i] = 'A' + (seed+byte(i))%26
+	}
+}
+
+func c15Filled(n int, seed byte) []byte { b := make([]byte, n); c15Fill(b, seed); return b }
+
+//go:noinline
+func c15LocalB1(w io.Writer, seed byte) { var b [1]byte; c15Fill(b[:], seed); Fprintf(w, "%s", b[:]) }
+
+//go:noinline
+func c15LocalB8(w io.Writer, seed byte) {
+	var b [8]byte
+	c15Fill(b[:], seed)
+	Fprintf(w, "[%12s]", b[:])
+}
+
+//go:noinline
+func c15LocalB32(w io.Writer, seed byte) { var b [32]byte; c15Fill(b[:], seed); Fprintf(w, "%s", b[:]) }
+
+//go:noinline
+func c15LocalB33(w io.Writer, seed byte) { var b [33]byte; c15Fill(b[:], seed); Fprintf(w, "%s", b[:]) }
+
+//go:noinline
+func c15LocalB64(w io.Writer, seed byte) {
+	var b [64]byte
+	c15Fill(b[:], seed)
+	Fprintf(w, "%s|%70s", b[:40], b[:])
+}
+
+//go:noinline
+func c15LocalB200(w io.Writer, seed byte) {
+	var b [200]byte
+	c15Fill(b[:], seed)
+	Fprintf(w, "x%sy", b[:])
+}
+
+//go:noinline
+func c15LocalS1(w io.Writer, seed byte) {
+	var b [1]byte
+	c15Fill(b[:], seed)
+	s := string(b[:])
+	Fprintf(w, "%s%3s", s, s)
+}
+
+//go:noinline
+func c15LocalS16(w io.Writer, seed byte) {
+	var b [16]byte
+	c15Fill(b[:], seed)
+	s := string(b[:])
+	Fprintf(w, "%s", s)
+}
+
+//go:noinline
+func c15LocalS32(w io.Writer, seed byte) {
+	var b [32]byte
+	c15Fill(b[:], seed)
+	s := string(b[:])
+	Fprintf(w, "<%40s>", s)
+}
+
+//go:noinline
+func c15LocalInts(w io.Writer, seed byte) {
+	x := int64(seed)*1000003 - 77777777
+	y := uint32(seed) + 70000
+	z := uint(seed) + 1<<40
+	Fprintf(w, "%d %8x %o", x, y, z)
+}
+
+//go:noinline
+func c15LocalSmallInts(w io.Writer, seed byte) {
+	a, b, c := int8(seed), uintptr(seed)<<20|1, int16(seed)*100
+	Fprintf(w, "%d%x%6d", a, b, c)
+}
+
+//go:noinline
+func c15LocalMixed(w io.Writer, seed byte) {
+	var b [48]byte
+	c15Fill(b[:], seed)
+	n := int(seed) * 4099
+	ok := seed&1 == 0
+	Fprintf(w, "%s=%d (%t) %x", b[:], n, ok, b[:5])
+}
+
+type c15Shape struct {
+	name string
+	call func(w io.Writer, seed byte)
+	desc func(seed byte) (string, []interface{})
+}
+
+var c15Shapes = []c15Shape{
+	{"local-bytes-1", c15LocalB1, func(s byte) (string, []interface{}) { return "%s", []interface{}{c15Filled(1, s)} }},
+	{"local-bytes-8", c15LocalB8, func(s byte) (string, []interface{}) { return "[%12s]", []interface{}{c15Filled(8, s)} }},
+	{"local-bytes-32", c15LocalB32, func(s byte) (string, []interface{}) { return "%s", []interface{}{c15Filled(32, s)} }},
+	{"local-bytes-33", c15LocalB33, func(s byte) (string, []interface{}) { return "%s", []interface{}{c15Filled(33, s)} }},
+	{"local-bytes-64", c15LocalB64, func(s byte) (string, []interface{}) {
+		return "%s|%70s", []interface{}{c15Filled(64, s)[:40], c15Filled(64, s)}
+	}},
+	{"local-bytes-200", c15LocalB200, func(s byte) (string, []interface{}) { return "x%sy", []interface{}{c15Filled(200, s)} }},
+	{"local-string-1", c15LocalS1, func(s byte) (string, []interface{}) {
+		return "%s%3s", []interface{}{string(c15Filled(1, s)), string(c15Filled(1, s))}
+	}},
+	{"local-string-16", c15LocalS16, func(s byte) (string, []interface{}) { return "%s", []interface{}{string(c15Filled(16, s))} }},
+	{"local-string-32", c15LocalS32, func(s byte) (string, []interface{}) { return "<%40s>", []interface{}{string(c15Filled(32, s))} }},
+	{"local-ints", c15LocalInts, func(s byte) (string, []interface{}) {
+		return "%d %8x %o", []interface{}{int64(s)*1000003 - 77777777, uint32(s) + 70000, uint(s) + 1<<40}
+	}},
+	{"local-small-ints", c15LocalSmallInts, func(s byte) (string, []interface{}) {
+		return "%d%x%6d", []interface{}{int8(s), uintptr(s)<<20 | 1, int16(s) * 100}
+	}},
+	{"local-mixed", c15LocalMixed, func(s byte) (string, []interface{}) {
+		return "%s=%d (%t) %x", []interface{}{c15Filled(48, s), int(s) * 4099, s&1 == 0, c15Filled(48, s)[:5]}
+	}},
 }
